@@ -21,7 +21,7 @@ DEFAULT_PROFILE = dict(
     max_depth=4, max_stmts=18, n_dests=(1, 3), p_dest_fail=0.15, p_typed=0.3, p_ser_fail=0.12,
     p_missing_field=0.05, p_extractor=0.5, p_ext_fail=0.25, p_str_raises=0.2, p_late_add=0.2,
     p_handles=0.35, p_remote=0.25, p_globals=0.2, p_probe=0.3, p_raise=0.3, p_task=0.1, p_remove=0.08,
-    p_reserved=0.0, p_deferred=0.2,
+    p_reserved=0.0, p_deferred=0.2, p_ext_reserved=0.0,
 )
 
 KEYS = ["x", "y", "z", "k1", "k2"]
@@ -74,11 +74,13 @@ def gen_env(rng, prof):
             s = None if rng.random() < prof["p_str_raises"] else "exc%d" % i
         else:
             s = str(pyc[c]("exc%d" % i))
-        excs.append(dict(id=i, cls=c, str=s))
+        excs.append(dict(id=i, cls=c, str=s, str_base=(s is None and rng.random() < 0.4)))
     # failure exceptions of callbacks: ids 8..11, plain generated Exception subclasses mostly
     exc_classes = [c for c in gen_ids if issubclass(pyc[c], Exception)] or [107]
     for i in range(8, 12):
-        c = rng.choice(exc_classes + [107])
+        # 8, 9: raised by destinations (only `Exception`s are isolated there); 10, 11: raised by field serializers and
+        # exception extractors, where eliot catches everything, so these may derive from BaseException only
+        c = rng.choice(exc_classes + [107]) if i < 10 else rng.choice(exc_classes + gen_ids + [107, 103])
         s = ("cb%d" % i) if (c >= 100 or rng.random() > prof["p_str_raises"]) else None
         if c >= 100:
             s = str(pyc[c]("exc%d" % i))
@@ -95,14 +97,18 @@ def gen_env(rng, prof):
                     for k in range(8):
                         if rng.random() < 0.4:
                             fail.append([k, rng.randint(8, 11)])
-            extractors.append(dict(cls=c, fields=[["ex%d" % c, {"n": c}]], failAt=fail))
+            fields = [["ex%d" % c, {"n": c}]]
+            if prof.get("p_ext_reserved") and rng.random() < prof["p_ext_reserved"]:
+                # an extractor whose result happens to use key names eliot sets itself afterwards
+                fields.append(["reason", {"s": "from-extractor"}])
+            extractors.append(dict(cls=c, fields=fields, failAt=fail))
     ser_fail = [[k, rng.randint(8, 11)] for k in range(12) if rng.random() < prof["p_ser_fail"]]
     dest_fail = []
     for d in range(4):
         dens = rng.choice([0, 0, prof["p_dest_fail"], prof["p_dest_fail"], 0.5, 1.0])
         for k in range(40):
             if rng.random() < dens:
-                dest_fail.append([d, k, rng.randint(8, 11)])
+                dest_fail.append([d, k, rng.randint(8, 9)])
     return dict(classes=classes, excs=excs, keyErrorClass=105, extractors=extractors, serFail=ser_fail, destFail=dest_fail)
 
 
